@@ -849,7 +849,9 @@ impl<F: FileSystem + Sync> Server<F> {
         } = ctx.r.read_obj().map_err(Error::DecodeMessage)?;
 
         let available_bytes = ctx.w.available_bytes();
-        if available_bytes < size as usize {
+        // The header is carved out of the same buffer, so entries are accounted against
+        // `size` only if the buffer can hold `size` bytes after the header.
+        if available_bytes < (size as usize).saturating_add(size_of::<OutHeader>()) {
             return ctx.reply_error_explicit(io::Error::from_raw_os_error(libc::ENOMEM));
         }
 
